@@ -26,6 +26,7 @@ func checkC03(r *Run) {
 	// C01) decides that the context splice, the fields and the hook fields are whole members
 	// separated exactly once (an empty embedded object adds nothing, not even a separator)
 	ruleA2(r, p)
+	ruleGate(r, p, true) // hooks run for every enabled event: the gate (C04) rejects for no reason other than levels and the sampler
 	r.Floor("NEWEV", 5)
 	r.Floor("MSG", 7)
 	r.Floor("HOOKS", 14)
